@@ -125,7 +125,11 @@ def run(tier, seed):
     V.write_evidence('C01', tier, seed, coverage, time.time() - t0, len(ver.violations),
                      assumptions=['reference laws of oracle/reflaw.py (self-test: two routes agree)', 'tolerance eps = eps_ref + 4u + mass within two ulps of the output type around each threshold',
                                   'VIOLATION only if an independent generator family (ChaCha12), 4N draws, confirms at 1e-9 what xoshiro256++ flagged at 1e-7'])
-    if len(seen_pairs) < 40 or missing or cov['cases_judged'] < 0.9 * len(cs):
+    # variant names are read off Debug renderings: a renamed internal variant must not break the check, so a missing
+    # name is reported in the evidence (and on stderr) but is not fatal; observing too few cases is
+    if missing:
+        V.log('note: expected variant names not seen in Debug output:', missing)
+    if len(seen_pairs) < 40 or cov['cases_judged'] < 0.9 * len(cs):
         V.log('coverage floor not met', len(seen_pairs), missing, cov['cases_judged'], len(cs), cov['oracle_inconclusive'][:5])
         return 2
     return rc
